@@ -120,11 +120,18 @@ def splitOnceHash (cs : List Char) (acc : List Char) : Option (List Char × List
   | [] => none
   | c :: rest => if c = '#' then some (acc.reverse, rest) else splitOnceHash rest (c :: acc)
 
+/-- `str::parse::<u32>` on the index part: an optional `+`, then digits. -/
+def indexChars (i : List Char) : Option Nat :=
+  match i with
+  | '+' :: c :: cs => parseNatChars (c :: cs) 0
+  | [] => none
+  | cs => parseNatChars cs 0
+
 def stringToUtxoRef (s : String) : Outcome UtxoRef :=
   match splitOnceHash s.toList [] with
   | none => .err "InvalidUtxoRef"
   | some (t, i) =>
-    match hexDecodeChars t, (match i with | '+' :: c :: cs => parseNatChars (c :: cs) 0 | [] => none | cs => parseNatChars cs 0) with
+    match hexDecodeChars t, indexChars i with
     | some txid, some idx => if idx < 2^32 then .ok { txid, index := idx } else .err "InvalidUtxoRef"
     | _, _ => .err "InvalidUtxoRef"
 
